@@ -364,7 +364,8 @@ CLAIMED["C15"] = (
     "Coq proof (creation-order semantics of the declaration styles; behaviour depends only on per-state transition lists) + pairwise differential correspondence of renderings",
     "DESIGN.md 5 C15",
     "Partial: decorator styles, States / enum / inheritance / Event-object styles are "
-    "covered by the correspondence only (the Coq model covers the transition-creating and event-attaching calls).")
+    "covered by the correspondence only (the Coq model covers the transition-creating and event-attaching calls).  One "
+    "genuine defect repaired (fix: 414111d, from_.any() deep-copied callbacks given as bound methods together with their object).")
 
 PENDING_REASON = "check not built yet in this session (work in progress; see DESIGN.md 9 for the order of work)"
 
